@@ -425,29 +425,59 @@ theorem Term.checkedGetType_closed (t : Term) (T : Ty)
 
 /-! ### the logical constants -/
 
+theorem Ty.isFun_fn (a b : Ty) : (Ty.fn a b).isFun = true := rfl
+theorem Ty.domain?_fn (a b : Ty) : (Ty.fn a b).domain? = some a := rfl
+theorem Ty.range?_fn (a b : Ty) : (Ty.fn a b).range? = some b := rfl
+
+/-- the lax type of `c a` for a constant `c` of function type -/
+theorem Term.getType_comb_const (bd : List Ty) (n : String) (A B : Ty) (a : Term) :
+    Term.getType bd (.comb (.const n (Ty.fn A B)) a) = .ok B := by
+  simp [Term.getType, bind, Except.bind, Ty.isFun_fn, Ty.range?_fn]
+
+/-- the denotation of a constant of function type applied to one argument -/
+theorem sem_comb_const (M : Model) (ρ : Valuation) (bd : List Ty) (env : List Nat) (n : String)
+    (A B : Ty) (a : Term) :
+    sem M ρ bd env (.comb (.const n (Ty.fn A B)) a)
+      = appCode (constVal M ρ n (Ty.fn A B)) (sem M ρ bd env a) (M.size B) := by
+  simp only [sem, Term.getType, Ty.range?_fn]
+
+/-- the denotation of a constant of binary function type applied to two arguments -/
+theorem sem_comb_const2 (M : Model) (ρ : Valuation) (bd : List Ty) (env : List Nat) (n : String)
+    (A B C : Ty) (a b : Term) :
+    sem M ρ bd env (.comb (.comb (.const n (Ty.fn A (Ty.fn B C))) a) b)
+      = appCode (appCode (constVal M ρ n (Ty.fn A (Ty.fn B C))) (sem M ρ bd env a)
+          (M.size (Ty.fn B C))) (sem M ρ bd env b) (M.size C) := by
+  rw [sem, Term.getType_comb_const]
+  simp only [Ty.range?_fn, sem_comb_const]
+
 theorem sem_implies (M : Model) (ρ : Valuation) (bd : List Ty) (env : List Nat) (a b : Term)
     (ha : sem M ρ bd env a < 2) (hb : sem M ρ bd env b < 2) :
     sem M ρ bd env (Term.mkImplies a b)
       = if sem M ρ bd env a = 1 ∧ sem M ρ bd env b = 0 then 0 else 1 := by
-  sorry
+  rw [Term.mkImplies, sem_comb_const2, constVal_implies, Model.size_fn, Model.size_bool]
+  exact appCode_implCode _ _ ha hb
 
 theorem sem_equals (M : Model) (ρ : Valuation) (bd : List Ty) (env : List Nat) (T : Ty) (s u : Term)
     (hs : sem M ρ bd env s < M.size T) (hu : sem M ρ bd env u < M.size T) :
     sem M ρ bd env (.comb (.comb (.const "equals" (Ty.fn T (Ty.fn T Ty.bool))) s) u)
       = if sem M ρ bd env s = sem M ρ bd env u then 1 else 0 := by
-  sorry
+  rw [sem_comb_const2, constVal_equals, Model.size_fn, Model.size_bool]
+  exact appCode_eqCode _ _ _ hs hu
 
 theorem sem_all (M : Model) (ρ : Valuation) (bd : List Ty) (env : List Nat) (T : Ty) (p : Term)
     (hp : sem M ρ bd env p < 2 ^ M.size T) :
     sem M ρ bd env (.comb (.const "all" (Ty.fn (Ty.fn T Ty.bool) Ty.bool)) p) = 1
       ↔ ∀ v, v < M.size T → appCode (sem M ρ bd env p) v 2 = 1 := by
-  sorry
+  rw [sem_comb_const, constVal_all, Model.size_bool]
+  exact appCode_allCode _ _ hp
 
 /-- the denotation of an abstraction, applied -/
 theorem appCode_sem_abs (M : Model) (ρ : Valuation) (hρ : Admissible M ρ) (bd : List Ty)
     (env : List Nat) (henv : EnvOK M bd env) (x : String) (T tb : Ty) (b : Term)
     (hb : Term.checkedGetType (T :: bd) b = .ok tb) (v : Nat) (hv : v < M.size T) :
     appCode (sem M ρ bd env (.abs x T b)) v (M.size tb) = sem M ρ (T :: bd) (v :: env) b := by
-  sorry
+  simp only [sem, Term.getType_of_checked (T :: bd) b tb hb]
+  exact appCode_lamCode _ _ _ v hv
+    (fun u hu => sem_lt M ρ hρ (T :: bd) (u :: env) (henv.cons hu) b tb hb)
 
 end Holpy
